@@ -4,7 +4,7 @@ import YncaVerif.Model.Subunit
 import YncaVerif.Model.Framing
 import YncaVerif.Model.Accept
 import YncaVerif.Model.ConnCheck
-import YncaVerif.Model.Api
+import YncaVerif.Model.ApiTimed
 import YncaVerif.Model.Server
 import YncaVerif.Model.Dialogue
 import YncaVerif.Gen.ServerTables
@@ -93,7 +93,7 @@ structure DState where
   ccT : Nat := 1500000
   cc : Option CC.St := some {}
   /-- L7 run check: state of the `YncaApi` program model; `none` once a label was not enabled -/
-  api : Option L7.A := some {}
+  api : Option L7.T := some {}
 
 def noExotic : Exotic := fun _ _ => none
 
@@ -201,25 +201,27 @@ def stepState (mode : String) (d : DState) (line : String) : DState × String :=
   | "api", ["keys"] =>
     match d.api with
     | none => (d, "dead")
-    | some a => (d, "keys" ++ "".intercalate (a.subunits.map (fun z => " " ++ Hex.hexOfStr z)))
+    | some t => (d, "keys" ++ "".intercalate (t.a.subunits.map (fun z => " " ++ Hex.hexOfStr z)))
   | "api", ["phase"] =>
     match d.api with
     | none => (d, "dead")
-    | some a =>
-      (d, match a.phase with
+    | some t =>
+      (d, match t.a.phase with
           | .fresh => "fresh" | .enqueueing => "enqueueing" | .detecting _ => "detecting" | .building _ => "building"
           | .ready => "ready" | .failed => "failed" | .closed => "closed")
   | "api", ["next"] =>
     -- the id of the object the model is about to construct
     match d.api with
     | none => (d, "dead")
-    | some a => (d, match a.phase with | .building (i :: _) => "next " ++ Hex.hexOfStr i | _ => "next-none")
+    | some t => (d, match t.a.phase with | .building (i :: _) => "next " ++ Hex.hexOfStr i | _ => "next-none")
   | "api", op :: args =>
     match d.api with
     | none => (d, "dead")
     | some a =>
-      let lab : Option L7.Label :=
+      let lab : Option L7.TLabel :=
         match op, args with
+        | "construct", [n] => n.toNat?.map L7.TLabel.construct
+        | _, _ => Option.map L7.TLabel.base <| match op, args with
         | "start", [] => some .start
         | "connectFails", [] => some .connectFails
         | "wait", [n] => n.toNat?.map L7.Label.wait
@@ -238,7 +240,7 @@ def stepState (mode : String) (d : DState) (line : String) : DState × String :=
       | none => (d, "bad-op")
       | some lab =>
         let P : L7.Params := { classIds := Gen.classes.map (·.id), perCmdUs := 5 * Gen.spacingUs }
-        match L7.step P a lab with
+        match L7.stepT P 120 a lab with
         | some a' => ({ d with api := some a' }, "ok")
         | none => ({ d with api := none }, "DISABLED " ++ op)
   | "dialogue", "answer" :: cmd :: lines =>
